@@ -198,4 +198,141 @@ theorem nextParserEtype_sl (pc : PC) {d : Bytes} {i j : Nat} (hj : j = i + 2) (h
     Go.NextParserEtype pc (sl d i j) = .ok (nextParserEtype (u8 d i) (u8 d (i + 1)), none) := by
   rw [sl_two hj h]; simp only [Go.NextParserEtype, toNat_ofNat_u8]
 
+/-! ### additions for Proofs/C08Trans.lean and Proofs/C14Trans.lean (NumbersT) -/
+
+theorem idx_getElem {b : Bytes} {i : Nat} (h : i < b.length) : Go.idx b i = .ok b[i] := by
+  simp [Go.idx, List.getElem?_eq_getElem h]
+
+theorem shl64_toNat (x : UInt64) (n : Nat) : (Go.shl64 x n).toNat = x.toNat * 2 ^ n % 2 ^ 64 := by
+  rw [Go.shl64, UInt64.toNat_ofNat', Nat.shiftLeft_eq]
+
+/-- one byte shifted into a 64-bit accumulator below bit 56 is not truncated -/
+theorem shl64_byte (x : UInt8) (k : Nat) (hk : k ≤ 6) :
+    (Go.shl64 (UInt64.ofNat x.toNat) (8 * k)).toNat = x.toNat <<< (8 * k) := by
+  have hx := x.toNat_lt
+  have e0 : x.toNat % 2 ^ 64 = x.toNat := Nat.mod_eq_of_lt (Nat.lt_of_lt_of_le hx (by decide))
+  rw [shl64_toNat, Nat.shiftLeft_eq, UInt64.toNat_ofNat', e0]
+  apply Nat.mod_eq_of_lt
+  have h1 : 2 ^ (8 * k) ≤ 2 ^ 48 := Nat.pow_le_pow_right (by decide) (by omega)
+  have h2 : x.toNat * 2 ^ (8 * k) < 256 * 2 ^ 48 := by
+    calc x.toNat * 2 ^ (8 * k) ≤ x.toNat * 2 ^ 48 := Nat.mul_le_mul_left _ h1
+      _ < 256 * 2 ^ 48 := Nat.mul_lt_mul_of_pos_right hx (by decide)
+  exact Nat.lt_of_lt_of_le h2 (by decide)
+
+theorem leNat_lt (b : Bytes) : leNat b < 256 ^ b.length := by
+  induction b with
+  | nil => simp [leNat]
+  | cons x xs ih =>
+    have hx := x.toNat_lt
+    simp only [leNat, List.length_cons, Nat.pow_succ]
+    omega
+
+theorem widen16 {n : Nat} (h : n < 65536) : (UInt16.ofNat n).toUInt64 = UInt64.ofNat n := by
+  rw [← UInt64.toNat_inj]; simp [UInt64.toNat_ofNat', UInt16.toNat_ofNat']; omega
+
+theorem widen32 {n : Nat} (h : n < 4294967296) : (UInt32.ofNat n).toUInt64 = UInt64.ofNat n := by
+  rw [← UInt64.toNat_inj]; simp [UInt64.toNat_ofNat', UInt32.toNat_ofNat']; omega
+
+theorem trunc8 (v : Nat) : UInt8.ofNat (v % 18446744073709551616) = UInt8.ofNat (v % 256) := by
+  rw [← UInt8.toNat_inj]; simp [UInt8.toNat_ofNat']
+
+theorem trunc16 (v : Nat) : UInt16.ofNat (v % 18446744073709551616) = UInt16.ofNat (v % 65536) := by
+  rw [← UInt16.toNat_inj]; simp [UInt16.toNat_ofNat']
+
+theorem trunc32 (v : Nat) : UInt32.ofNat (v % 18446744073709551616) = UInt32.ofNat (v % 4294967296) := by
+  rw [← UInt32.toNat_inj]; simp [UInt32.toNat_ofNat']
+
+theorem trunc64 (v : Nat) : UInt64.ofNat v = UInt64.ofNat (v % 18446744073709551616) := by
+  rw [← UInt64.toNat_inj]; simp [UInt64.toNat_ofNat']
+
+theorem or3 (v o t : Nat) (hv : v < 65536) (ho : o < 4294967296) (ht : t < 65536) :
+    (v * 281474976710656 % 18446744073709551616) ||| (o * 65536 % 18446744073709551616) ||| t
+      = v * 281474976710656 + o * 65536 + t := by
+  have h1 := Nat.shiftLeft_add_eq_or_of_lt (i := 48) (b := o * 65536) (by omega) v
+  have h2 := Nat.shiftLeft_add_eq_or_of_lt (i := 16) (b := t) (by omega) (v * 4294967296 + o)
+  simp only [Nat.shiftLeft_eq, Nat.reducePow] at h1 h2
+  have e1 : v * 281474976710656 % 18446744073709551616 = v * 281474976710656 := Nat.mod_eq_of_lt (by omega)
+  have e2 : o * 65536 % 18446744073709551616 = o * 65536 := by
+    apply Nat.mod_eq_of_lt; omega
+  have e3 : v * 281474976710656 + o * 65536 = (v * 4294967296 + o) * 65536 := by
+    rw [Nat.add_mul, Nat.mul_assoc]
+  rw [e1, e2, ← h1, e3, ← h2]
+
+theorem shl8_model (x : UInt8) (n : Nat) : Go.shl8 x n = Producer.shl8 x n := by
+  rw [← UInt8.toNat_inj]; simp [Go.shl8, Producer.shl8, Nat.shiftLeft_eq, UInt8.toNat_ofNat']
+
+theorem shr8_model (x : UInt8) (n : Nat) : Go.shr8 x n = Producer.shr8 x n := by
+  simp [Go.shr8, Producer.shr8, Nat.shiftRight_eq_div_pow]
+
+theorem tmod_nat (m : Nat) : Int.tmod (m : Int) 8 = ((m % 8 : Nat) : Int) := (Int.ofNat_tmod m 8).symm
+
+theorem tdiv_nat (m : Nat) : Int.tdiv (m : Int) 8 = ((m / 8 : Nat) : Int) := (Int.ofNat_tdiv m 8).symm
+
+theorem idxI_nat (d : Bytes) (i : Nat) : Go.idxI d (i : Int) = Go.idx d i := by
+  have h : ¬ ((i : Int) < 0) := by omega
+  simp [Go.idxI, h]
+
+theorem idxI_nat_succ (d : Bytes) (i : Nat) : Go.idxI d ((i : Int) + 1) = Go.idx d (i + 1) := by
+  have h : ¬ ((i : Int) + 1 < 0) := by omega
+  have e : ((i : Int) + 1).toNat = i + 1 := by omega
+  simp [Go.idxI, h, e]
+
+theorem setIdxI_nat (d : Bytes) (i : Nat) (v : UInt8) : Go.setIdxI d (i : Int) v = Go.setIdx d i v := by
+  have h : ¬ ((i : Int) < 0) := by omega
+  simp [Go.setIdxI, h]
+
+theorem shl8I_nat (x : UInt8) (s : Nat) : Go.shl8I x (s : Int) = .ok (Producer.shl8 x s) := by
+  simp [Go.shl8I, shl8_model]
+
+theorem shr8I_nat (x : UInt8) (s : Nat) : Go.shr8I x (s : Int) = .ok (Producer.shr8 x s) := by
+  simp [Go.shr8I, shr8_model]
+
+theorem shr8I_sub (x : UInt8) (s : Nat) (hs : s ≤ 8) : Go.shr8I x (8 - (s : Int)) = .ok (Producer.shr8 x (8 - s)) := by
+  have h : ¬ (8 - (s : Int) < 0) := by omega
+  have e : (8 - (s : Int)).toNat = 8 - s := by omega
+  simp [Go.shr8I, h, e, shr8_model]
+
+theorem tmod_nat_add (a b : Nat) : Int.tmod ((a : Int) + (b : Int)) 8 = (((a + b) % 8 : Nat) : Int) := by
+  rw [← Int.natCast_add]; exact tmod_nat _
+
+theorem tdiv_nat_add (a b : Nat) : Int.tdiv ((a : Int) + (b : Int)) 8 = (((a + b) / 8 : Nat) : Int) := by
+  rw [← Int.natCast_add]; exact tdiv_nat _
+
+theorem sliceI_nat (d : Bytes) (a b : Nat) (h1 : a ≤ b) (h2 : b ≤ d.length) :
+    Go.sliceI d (a : Int) (b : Int) = .ok ((d.take b).drop a) := by
+  have h : ¬ ((a : Int) < 0 ∨ (b : Int) < 0) := by omega
+  simp [Go.sliceI, h, Go.slice, h1, h2, List.drop_take]
+
+theorem tdiv_tmod_spec (x : Int) :
+    x = 8 * Int.tdiv x 8 + Int.tmod x 8 ∧ (0 ≤ x → 0 ≤ Int.tmod x 8 ∧ Int.tmod x 8 < 8) ∧
+      (x ≤ 0 → -8 < Int.tmod x 8 ∧ Int.tmod x 8 ≤ 0) := by
+  refine ⟨(Int.mul_tdiv_add_tmod x 8).symm, ?_, ?_⟩
+  · intro h
+    obtain ⟨n, rfl⟩ := Int.eq_ofNat_of_zero_le h
+    rw [tmod_nat]; omega
+  · intro h
+    obtain ⟨n, rfl⟩ := Int.exists_eq_neg_ofNat h
+    rw [Int.neg_tmod, tmod_nat]; omega
+
+theorem sliceI_ok_bounds {d : Bytes} {a b : Int} {v : Bytes} (h : Go.sliceI d a b = .ok v) :
+    0 ≤ a ∧ 0 ≤ b ∧ a ≤ b ∧ b ≤ (d.length : Int) := by
+  unfold Go.sliceI at h
+  split at h
+  · cases h
+  · unfold Go.slice at h
+    split at h
+    · omega
+    · cases h
+
+theorem sliceI_cases (d : Bytes) (a b : Int) : Go.sliceI d a b = .error .panic ∨ ∃ v, Go.sliceI d a b = .ok v := by
+  unfold Go.sliceI Go.slice
+  split
+  · exact Or.inl rfl
+  · split
+    · exact Or.inr ⟨_, rfl⟩
+    · exact Or.inl rfl
+
+theorem sliceI_neg (d : Bytes) (a b : Int) (h : a < 0) : Go.sliceI d a b = .error .panic := by
+  simp [Go.sliceI, h]
+
 end Goflow.Go
